@@ -483,6 +483,20 @@ class Frame:
             return self.call(i, n)
         self.bad(i, "node kind " + k)
 
+    def _builtin_op(self, i, n, op, args, vals):
+        """operator on already evaluated plain values (comparison / arithmetic / subscript)"""
+        if op in ("==", "!=", "<", "<=", ">", ">=") and len(vals) == 2:
+            if op in ("==", "!="):
+                return (vals[0] == vals[1]) if op == "==" else (vals[0] != vals[1])
+            return self.binop(i, op, vals[0], vals[1])
+        if op in ("+", "-", "*", "/") and len(vals) == 2:
+            return self.binop(i, op, vals[0], vals[1])
+        if op in ("++", "--") and len(vals) >= 1 and isinstance(vals[0], int):
+            nv = vals[0] + (1 if op == "++" else -1)
+            self.assign(args[0], nv)
+            return vals[0] if len(args) == 2 else nv
+        self.bad(i, "user-defined operator%s on plain values" % op)
+
     def _peek_closure(self, i):
         n = self.nodes[i]
         for _ in range(4):
@@ -566,9 +580,12 @@ class Frame:
                 from . import pipeline as _pl
                 if (ufn.file or "").startswith(_pl.REPO.rstrip("/") + "/") or "/verif/spec/" in (ufn.file or ""):
                     vals_ = [self.eval(a) for a in args]
-                    if n.get("ismember"):
-                        return self.ip.call_fn(ufn, vals_[1:], this=vals_[0])
-                    return self.ip.call_fn(ufn, vals_)
+                    # (value classes that the rule models by plain numbers -- BlockNumber as an int -- keep the built-in meaning)
+                    if vals_ and isinstance(vals_[0], Obj) and not isinstance(vals_[0], FObj):
+                        if n.get("ismember"):
+                            return self.ip.call_fn(ufn, vals_[1:], this=vals_[0])
+                        return self.ip.call_fn(ufn, vals_)
+                    return self._builtin_op(i, n, op, args, vals_)
             if op == "()" and len(args) >= 1:
                 cl_ = self._peek_closure(args[0])
                 if cl_ is None:
